@@ -262,7 +262,7 @@ def compute_expanded_multivalue_features(
             if missing_symbol in unique_values:
                 unique_values.remove(missing_symbol)
 
-        for unique_value in unique_values:
+        for unique_value in sorted(unique_values):
             tmp_vec = []
             for enx, multivalue in enumerate(multivalue_sets):
                 if unique_value in multivalue:
